@@ -44,6 +44,9 @@ struct Shared {
     recording: AtomicBool,
     /// every collector hands tracing ids from its own counter (1, 2, ..); the log is written in global sequence numbers
     own_ids: bool,
+    /// one-shot fault: the next `exit` callback any recording collector receives unwinds (after it has recorded the call
+    /// and updated its stack); armed by the fault ops 30..33, disarmed when it fires
+    armed: AtomicBool,
 }
 
 thread_local! {
@@ -180,6 +183,10 @@ impl Collect for Rec {
         let span = self.root(id.into_u64());
         if let Some(p) = v.iter().rposition(|x| *x == span) {
             v.remove(p);
+        }
+        drop(st);
+        if self.shared.armed.swap(false, Ordering::SeqCst) {
+            panic::resume_unwind(Box::new(Unwind)); // no panic hook, no message: a collector whose exit hook panics
         }
     }
     fn record(&self, id: &Id, _: &Record<'_>) {
@@ -731,6 +738,56 @@ fn run_loop(ctx: &std::rc::Rc<WorkerCtx>) -> Exit {
                 let r = idp(&s);
                 case.put(a, s);
                 ctx.ack(Ack::Done(r, 0, 0));
+            }
+            30 | 31 => {
+                // fault ops on an EnteredSpan of this thread, the collectors' exit hook armed to unwind, inside catch_unwind:
+                // 30 = drop(guard.exit()), 31 = drop(guard).  Either way the handle inside the guard is gone afterwards.
+                let _ = case.take(a);
+                let es = ctx.owned.borrow_mut().remove(&a).expect("validated: owned by this thread");
+                let dr = idp(&es);
+                case.shared.armed.store(true, Ordering::SeqCst);
+                let res = panic::catch_unwind(AssertUnwindSafe(move || {
+                    if code == 30 {
+                        let s = (*es).exit();
+                        drop(s);
+                    } else {
+                        drop(es);
+                    }
+                }));
+                case.shared.armed.store(false, Ordering::SeqCst);
+                let fired = match res {
+                    Ok(()) => 0,
+                    Err(p) if p.is::<Unwind>() => 1,
+                    Err(p) => panic::resume_unwind(p),
+                };
+                ctx.ack(Ack::Done(fired, dr, 0));
+            }
+            32 => {
+                // drop of a borrowed guard (Entered<'_>) with the exit hook armed
+                let g = ctx.guards.borrow_mut().remove(&a).expect("validated: guard of this thread");
+                ctx.guard_order.borrow_mut().retain(|x| *x != a);
+                case.shared.armed.store(true, Ordering::SeqCst);
+                let res = panic::catch_unwind(AssertUnwindSafe(move || drop(g)));
+                case.shared.armed.store(false, Ordering::SeqCst);
+                let fired = match res {
+                    Ok(()) => 0,
+                    Err(p) if p.is::<Unwind>() => 1,
+                    Err(p) => panic::resume_unwind(p),
+                };
+                ctx.ack(Ack::Done(fired, 0, 0));
+            }
+            33 => {
+                // span.in_scope(|| ()) with the exit hook armed
+                let sp: &Span = unsafe { &*case.span_ptr(a) };
+                case.shared.armed.store(true, Ordering::SeqCst);
+                let res = panic::catch_unwind(AssertUnwindSafe(|| sp.in_scope(|| ())));
+                case.shared.armed.store(false, Ordering::SeqCst);
+                let fired = match res {
+                    Ok(()) => 0,
+                    Err(p) if p.is::<Unwind>() => 1,
+                    Err(p) => panic::resume_unwind(p),
+                };
+                ctx.ack(Ack::Done(fired, 0, 0));
             }
             9 => {
                 let sp: &Span = unsafe { &*case.span_ptr(a) };
@@ -1319,6 +1376,28 @@ impl OwnSt {
                     return false;
                 }
             }
+            30 | 31 => {
+                let ok = {
+                    let on = self.on(a);
+                    self.is_handle(a) && on.len() == 1 && on[0].k == EK::Owned && on[0].t == t
+                };
+                if !ok {
+                    return false;
+                }
+                self.ents.retain(|x| x.h != a);
+                self.kinds.remove(&a);
+            }
+            32 => match self.find_guard(a) {
+                Some(i) if self.ents[i].t == t => {
+                    self.ents.remove(i);
+                }
+                _ => return false,
+            },
+            33 => {
+                if !self.readable(a) {
+                    return false;
+                }
+            }
             _ => return false,
         }
         true
@@ -1344,6 +1423,7 @@ fn run_case(v: &serde_json::Value) -> serde_json::Value {
         next_id: AtomicU64::new(1),
         recording: AtomicBool::new(true),
         own_ids: v["own_ids"].as_bool().unwrap_or(false),
+        armed: AtomicBool::new(false),
     });
     let wraps: Vec<u64> = v["wraps"].as_array().map(|a| a.iter().map(|x| x.as_u64().unwrap_or(0)).collect()).unwrap_or_default();
     let dispatches: Vec<Dispatch> = (1..=ncoll)
@@ -1446,7 +1526,7 @@ fn main() {
     panic::set_hook(Box::new(|_| {}));
     // Capture the three callsites' metadata once (for the direct Span::new* calls) under a throw-away collector.
     {
-        let sh = Arc::new(Shared { log: Mutex::new(Vec::new()), next_id: AtomicU64::new(1), recording: AtomicBool::new(false), own_ids: false });
+        let sh = Arc::new(Shared { log: Mutex::new(Vec::new()), next_id: AtomicU64::new(1), recording: AtomicBool::new(false), own_ids: false, armed: AtomicBool::new(false) });
         let d = Dispatch::new(Rec::new(9, false, sh));
         dispatch::with_default(&d, || {
             let a = mk_ctx();
